@@ -104,14 +104,25 @@ Proof.
   destruct (str_eqb_spec k x) as [->|Hne]; [apply kv_get_del_same|now apply kv_get_del_other].
 Qed.
 
+Lemma reg_del_v2_only k :
+  Forall (fun a => match a with AUpd _ _ | ADel _ | AClear => False | _ => True end) (reg_del k).
+Proof.
+  unfold reg_del. destruct (split slash k) as [|a [|b [|c [|d [|e r]]]]]; try constructor.
+  destruct (str_eqb b s_clients); [|constructor]. destruct (client_of_str c); [|constructor].
+  destruct (str_eqb d s_graveGoods); [repeat constructor|]. destruct (str_eqb d s_lastWill); repeat constructor.
+Qed.
+
+Lemma apply_all_app' t a b : apply_all t (a ++ b) = apply_all (apply_all t a) b.
+Proof. unfold apply_all. apply fold_left_app. Qed.
+
 Lemma apply_del_actions t (keys : list str) :
   t_v2 (apply_all t (flat_map del_action keys)) =
   fold_left (fun acc x => kv_del x acc) (filter (fun k => negb (starts_with s_SYS_prefix k)) keys) (t_v2 t).
 Proof.
   revert t. induction keys as [|k keys IH]; intros t; [reflexivity|]. cbn [flat_map filter].
-  unfold del_action at 1. destruct (starts_with s_SYS_prefix k); cbn [negb app].
-  - apply IH.
-  - unfold apply_all in *. cbn [fold_left apply_action]. rewrite IH. reflexivity.
+  unfold del_action at 1. destruct (starts_with s_SYS_prefix k); cbn [negb].
+  - rewrite apply_all_app', IH. now rewrite (apply_all_v2_only _ _ (reg_del_v2_only k)).
+  - cbn [app]. unfold apply_all in *. cbn [fold_left apply_action]. rewrite IH. reflexivity.
 Qed.
 
 Inductive cwrite' := WSet' (c : cid) (k : str) (v : json) | WCSet' (c : cid) (k : str) (v : json) (n : N)
@@ -139,7 +150,7 @@ Proof.
     + destruct H as (p & e & Hp & Habs & _ & HI' & Hm). split; [exact HI'|].
       intros k2 p2 Hp2 Hpre2. unfold abs in *. rewrite (Hm p2). unfold m_del, del_action.
       destruct (starts_with s_SYS_prefix k) eqn:Epre.
-      * unfold apply_all. cbn [fold_left].
+      * rewrite (apply_all_v2_only _ _ (reg_del_v2_only k)).
         destruct (path_eqb_spec p p2) as [->|Hne]; [exfalso; pose proof (key_path_inj k k2 p2 p2 Hp Hp2 eq_refl) as ->; congruence|now apply HT].
       * unfold apply_all. cbn [fold_left apply_action t_v2].
         destruct (path_eqb_spec p p2) as [->|Hne].
